@@ -420,6 +420,14 @@ fn c13_triangle(v: &[Val]) -> Result<bool, String> {
 }
 fn g_inv(r: &mut Rng) -> Vec<Val> {
     if r.chance(1, 6) { let p = gen_geonum(r); return vec![Val::G(p), Val::G(p), Val::F(gen_pos(r))]; }
+    if r.chance(1, 5) {
+        // the quantifier's nearly coincident points: magnitudes a few ulps apart on one ray, over eight orders of magnitude
+        let c = Geonum::new_with_angle(log_uniform(r, -4.0, 9.0), mk_angle(r.below(40) as usize, gen_rem(r)));
+        let k = 1 + r.below(8);
+        let bits = if r.chance(1, 2) { c.mag.to_bits() + k } else { c.mag.to_bits() - k };
+        let p = Geonum::new_with_angle(f64::from_bits(bits), c.angle);
+        return vec![Val::G(p), Val::G(c), Val::F(log_uniform(r, -2.0, 2.0))];
+    }
     let c = Geonum::new_with_angle(if r.chance(1, 4) { 0.0 } else { log_uniform(r, -2.0, 2.0) }, mk_angle(r.below(40) as usize, gen_rem(r)));
     let rad = log_uniform(r, -2.0, 2.0);
     let off = Geonum::new_with_angle(rad * log_uniform(r, -2.0, 2.0), mk_angle(r.below(8) as usize, gen_rem(r)));
